@@ -147,13 +147,16 @@ class ContractMixin:
             return self.truth(e.args[0], st, lambda s: self.ev(e.args[1], s, k), lambda s: self.ev(e.args[2], s, k))
         if name in ("forall", "exists"):
             return self.spec_quant(e, st, k, name == "forall")
-        if name == "forall_new":
+        if name in ("forall_new", "forall_new_exact"):
             # every object of the class allocated by this call
             def with_cls(cv, s):
                 lam = e.args[1]
                 terms = []
+                if getattr(s, "callee_view", False):
+                    # clause of a callee applied at a call site: its private objects are not the caller's
+                    return k(mk_bool(True), s)
                 for (o, oc) in s.new_objs:
-                    if self.static_subclass_safe(oc, cv.name):
+                    if (oc == cv.name) if name == "forall_new_exact" else self.static_subclass_safe(oc, cv.name):
                         fr = s.frame.copy()
                         fr.locals[lam.args.args[0].arg] = Val(REF(oc), o)
                         terms.append(self.eval_clause(lam.body, s, frame=fr))
@@ -286,7 +289,13 @@ class ContractMixin:
             bound = []
             guards = []
             vals = []
-            if isinstance(dv, ClsVal) or (isinstance(dv, FuncVal) and dv.name in ("int", "object")):
+            if isinstance(dv, FuncVal) and dv.name == "anything":
+                # every value of the reference sort, no guards (keys of dicts etc.)
+                for n in names:
+                    x = fresh("q_" + n, RefS)
+                    vals.append(Val(ANY, x))
+                    bound.append(x)
+            elif isinstance(dv, ClsVal) or (isinstance(dv, FuncVal) and dv.name in ("int", "object")):
                 for n in names:
                     if isinstance(dv, FuncVal) and dv.name == "int":
                         x = fresh("q_" + n, z3.IntSort())
@@ -768,6 +777,7 @@ class ContractMixin:
             sfr = fr.copy()
             saved_old = s.old
             s.old = pre
+            s.callee_view = True
             try:
                 if kind == "normal":
                     for w in whens:
@@ -821,7 +831,7 @@ class ContractMixin:
                     s.old = saved_old
                     outs.append((Outcome("X", exc), s))
             finally:
-                pass
+                s.callee_view = False
         if vacuous[0] and self.feasible(st_guard):
             # the caller's state is reachable but no outcome of the callee's contract is consistent with it:
             # either the contract is wrong or a precondition failed -- never drop the path silently
